@@ -20,6 +20,7 @@ OpOps == << [op |-> "matmul", roles |-> <<"rhs">>], [op |-> "rmatmul", roles |->
             [op |-> "root_inv_decomposition_vecs", roles |-> <<"init", "test">>],
             [op |-> "add_diagonal", roles |-> <<"diag">>], [op |-> "add_low_rank", roles |-> <<"lowrank">>],
             [op |-> "cat_rows", roles |-> <<"cross", "new">>], [op |-> "getitem_tensor", roles |-> <<"index">>],
+            [op |-> "getitem_tensor_neg", roles |-> <<"index_neg">>],
             [op |-> "mul_const", roles |-> <<"const">>], [op |-> "add_tensor", roles |-> <<"mat">>],
             [op |-> "noarg_queries", roles |-> <<>>] >>
 \* utilities: [op, roles]
@@ -35,7 +36,7 @@ UtilOps == << [op |-> "linear_cg", roles |-> <<"rhs", "guess">>], [op |-> "linea
               [op |-> "contour_integral_quad", roles |-> <<"rhs">>] >>
 Lay == <<"contig", "expanded", "transposed", "slice">>
 Cls == <<"Dense", "Diag", "Toeplitz", "Chol", "Kron", "KronAddedDiag", "AddedDiag", "LRRAddedDiag", "BlockDiag", "BatchRepeat", "Sum",
-         "ConstMul", "Root", "Interp", "PsdSum", "Identity", "KronDiag", "LRRAddedDiagI", "AddedDiagI", "SumI", "ConstDiag">>
+         "ConstMul", "Root", "Interp", "PsdSum", "Identity", "KronDiag", "LRRAddedDiagI", "AddedDiagI", "SumI", "ConstDiag", "ConstMulI", "BlockDiagConstMulI">>
 Batches == << <<>>, <<2>> >>
 
 VARIABLES case, ver, done
